@@ -142,6 +142,7 @@ def checkCase (j : Json) : Except String Verdict := do
   -- history bookkeeping for the C04 monitor: per host, absolute lifetime of the chain's login
   let mut clock : Int := 0
   let mut chainLifetime : List (String × Int) := []
+  let mut episode : List (String × Int) := []      -- host ↦ absolute time of the first outage-served check of the current episode
   let mut pageStructure : List (Nat × String) := []      -- status ↦ structure (the template branches on the code only)
   for st in steps do
     let inp := getJ st "in"
@@ -336,6 +337,30 @@ def checkCase (j : Json) : Except String Verdict := do
         if strD loc "path" != s!"/{slug}/sign_in" then
           v := v.mon "C13" "provider_is_upstreams" idx s!"{strD loc "path"} for upstream {u.service} (provider_slug {u.slug})"
             (if strD loc "path" == s!"/{defaultSlug}/sign_in" then "provider-slug-ignored" else "")
+      -- C05/C04 (history level, from the *answers* alone): along one browser's chain of requests, a check let through on an
+      -- outage answer happens less than the grace TTL after the first such check since the last confirmed one — whatever
+      -- the session's own grace field says (the ghost `episodeAfter` of C05_grace_start_is_first_failure, run on the trace)
+      if strD presented "kind" == "jar" && !whitel && handlerOf (strD ora "escapedPath") == "Proxy" then
+        match psess with
+        | some s =>
+          if s.slug == slug && s.host == host && s.lifetime ≥ 0 then
+            let Pbig : Proxy.Policy := { P with G := 1000000000 }
+            let s0 : Sess := { s with grace := none }
+            let kind : String :=
+              if s.refresh < 0 then (match refreshWhy Pbig 0 s0 a with | some .grace => "outage" | some .confirmed => "confirmed" | none => "refused")
+              else if s.valid < 0 then (match validateWhy Pbig 0 s0 a with | some .grace => "outage" | some .confirmed => "confirmed" | none => "refused")
+              else "none"
+            if kind == "outage" && reached then
+              match episode.find? (·.1 == host) with
+              | none => episode := (host, clock) :: episode
+              | some (_, t0) =>
+                if !(clock < t0 + ttlG) then
+                  v := v.mons ["C05", "C04", "C01"] "grace_outlives_ttl_from_first_failure" idx s!"first outage answer at {t0}, served on another at {clock}, grace TTL {ttlG}"
+            else if kind != "none" then episode := episode.filter (·.1 != host)
+          else episode := episode.filter (·.1 != host)
+        | none => episode := episode.filter (·.1 != host)
+      else if handlerOf (strD ora "escapedPath") == "OAuthCallback" || strD presented "kind" != "jar" then
+        episode := episode.filter (·.1 != host)
       -- C04: no cookie write ever moves the lifetime later / changes identity (history level, absolute time)
       for w in iwrites do
         match sessOf (getJ w "save") with
